@@ -97,11 +97,12 @@ let () =
           | "G" -> let a = loc () in let b = loc () in
             let w = cz_of_string (next ()) in let wz = cz_of_string (next ()) in C.IXchg (a, b, w, wz)
           | _ -> failwith "inst") in
-        let ok = C.validate mvs allowed ms in
+        (* the verdict is the BYTE-LEVEL validator (validate_bytes = validate + the moves' own cells in the range check + widths <= 512) *)
+        let ok = C.validate_bytes mvs allowed ms in
         (* per-move verdict for diagnosis *)
         let st = C.sym_exec ms [] in
         let per = List.map (fun mv -> if C.check_move mv (C.alookup st mv.C.m_dst) then "1" else "0") mvs in
-        Printf.printf "V %d moves=%s mem=%d\n" (if ok then 1 else 0) (join "" per) (if C.mem_ranges_ok ms then 1 else 0)
+        Printf.printf "V %d moves=%s mem=%d cells=%d\n" (if ok then 1 else 0) (join "" per) (if C.mem_ranges_ok ms then 1 else 0) (if C.validate mvs allowed ms then 1 else 0)
       | [] -> ()
       | _ -> print_endline "BAD"
     done
